@@ -23,7 +23,7 @@ BUDGET_S = {'quick': 90, 'thorough': 1500}
 
 
 def plan(tier, seed):
-    return [('client', 700 if tier == 'quick' else 25000), ('server', len(_server_cases()))]
+    return [('client', 3000 if tier == 'quick' else 40000), ('server', len(_server_cases()))]
 
 
 TD_MS = [1, 2, 499, 500, 501, 999, 1000, 1001, 1500, 2750, 60000, 120250, 600000, 24 * 24 * 3600 * 1000]
@@ -154,7 +154,7 @@ def _server_cases():
         for resume in (False, True):
             for lease in (False, True):
                 for publisher in (False, True):
-                    for raises in (False, True):
+                    for raises in (False, 'runtime', 'value', 'protocol-rejected', 'protocol-application', 'stream-id-in-use'):
                         for payload in ('none', 'd', 'm', 'dm'):
                             out.append({'link': link, 'resume': resume, 'lease': lease, 'publisher': publisher,
                                         'raises': raises, 'payload': payload, 'frame': 'SETUP'})
@@ -172,7 +172,13 @@ async def _server_case(rng, case):
     rw = RawWorld(rng, 's', link_kind=case['link'], server_kwargs=kw)
     await rw.start(send_setup=False)
     if case.get('raises'):
+        from rsocket.exceptions import RSocketProtocolError, RSocketStreamIdInUse
+        from rsocket.error_codes import ErrorCode
         rw.handler.raise_in = ('on_setup',)
+        rw.handler.raise_exc = {'runtime': RuntimeError('on_setup raises'), 'value': ValueError('bad setup'),
+                                'protocol-rejected': RSocketProtocolError(ErrorCode.REJECTED, data='no'),
+                                'protocol-application': RSocketProtocolError(ErrorCode.APPLICATION_ERROR, data='no'),
+                                'stream-id-in-use': RSocketStreamIdInUse(0)}[case['raises']]
     expect_payload = (b'', b'')
     if case['frame'] == 'SETUP':
         d = b'setup-data' if 'd' in case['payload'] else b''
